@@ -87,12 +87,12 @@ package storage
 // the key decides, and a deletion marker in it reads as not-found without consulting older layers.
 // hit = index of the table file that decided the lookup (-1: none); ghost, set where the key was matched
 //@ ghost field (*Manager) hit int
-//@ predicate NoMemHas(m *Manager, k bstr) = !m.memTablePool.active.has[k] && (forall i int :: 0 <= i && i < len(m.memTablePool.immutables) ==> !m.memTablePool.immutables[i].has[k])
-//@ predicate PoolOK(m *Manager) = m.memTablePool != nil && m.memTablePool.active != nil && lockstate(m.memTablePool.mu) == 0 && lockstate(m.memTablePool.active.mu) == 0 && (forall i int :: 0 <= i && i < len(m.memTablePool.immutables) ==> m.memTablePool.immutables[i] != nil && lockstate(m.memTablePool.immutables[i].mu) == 0)
+//@ predicate NoMemHas(m *Manager, k bstr) = !MTHas(m.memTablePool.active, k) && (forall i int :: 0 <= i && i < len(m.memTablePool.immutables) ==> !MTHas(m.memTablePool.immutables[i], k))
+//@ predicate PoolOK(m *Manager) = m.memTablePool != nil && m.memTablePool.active != nil && lockstate(m.memTablePool.mu) == 0 && lockstate(m.memTablePool.active.mu) == 0 && m.memTablePool.active.skipList != nil && (forall i int :: 0 <= i && i < len(m.memTablePool.immutables) ==> m.memTablePool.immutables[i] != nil && m.memTablePool.immutables[i].skipList != nil && lockstate(m.memTablePool.immutables[i].mu) == 0)
 //@ func (*Manager).Get
 //@   requires PoolOK(m) && !m.closed && (forall i int :: 0 <= i && i < len(m.sstables) ==> m.sstables[i] != nil)
-//@   ensures[C01] m.memTablePool.active.has[bstr(key)] && m.memTablePool.active.del[bstr(key)] ==> err == ErrKeyNotFound
-//@   ensures[C01] m.memTablePool.active.has[bstr(key)] && !m.memTablePool.active.del[bstr(key)] ==> err == nil && bstr(result0) == m.memTablePool.active.val[bstr(key)]
+//@   ensures[C01] MTHas(m.memTablePool.active, bstr(key)) && MTDel(m.memTablePool.active, bstr(key)) ==> err == ErrKeyNotFound
+//@   ensures[C01] MTHas(m.memTablePool.active, bstr(key)) && !MTDel(m.memTablePool.active, bstr(key)) ==> err == nil && bstr(result0) == MTVal(m.memTablePool.active, bstr(key))
 //@   ensures[C01] NoMemHas(m, bstr(key)) && m.hit >= 0 ==> m.hit < len(m.sstables) && m.sstables[m.hit].has[bstr(key)] && (forall j int :: m.hit < j && j < len(m.sstables) ==> !m.sstables[j].has[bstr(key)])
 //@   ensures[C01] NoMemHas(m, bstr(key)) && m.hit >= 0 ==> (m.sstables[m.hit].del[bstr(key)] ==> err == ErrKeyNotFound) && (!m.sstables[m.hit].del[bstr(key)] ==> err == nil && bstr(result0) == m.sstables[m.hit].val[bstr(key)])
 //@   ensures[C01] NoMemHas(m, bstr(key)) && m.hit < 0 ==> err == ErrKeyNotFound && (forall i int :: 0 <= i && i < len(m.sstables) ==> !m.sstables[i].has[bstr(key)])
